@@ -209,6 +209,8 @@ structure St where
   seq : Nat := 0
   dirty : Bool := false
   tantivyDirty : Bool := false
+  /-- a Tantivy snapshot has been embedded in the file at least once -/
+  lexWritten : Bool := false
   gen : Nat := 0
   /-- dead bytes of regions written by an earlier commit are still in the file -/
   stale : Bool := false
@@ -245,7 +247,8 @@ abbrev Engine := List Seg → Nat → List Nat
 
 /-- `Memvid::create`; with `lex` the Tantivy engine gets a temporary working directory -/
 def create (lex : Bool) (o : Oracles) : St :=
-  if lex then { lex := true, workDir := o.tmp 0, kTmp := 1 } else { lex := false }
+  -- `init_tantivy` on the empty file reports a rebuild, which leaves `tantivy_dirty` set
+  if lex then { lex := true, tantivyDirty := true, workDir := o.tmp 0, kTmp := 1 } else { lex := false }
 
 def setStatus (fs : List Frame) (i : Nat) (st : Status) (by_ : Option Nat) : List Frame :=
   match fs[i]? with
@@ -305,15 +308,18 @@ def commit (o : Oracles) (s : St) : St :=
       let segs' := layout o s.kUuid s.kSched ds
       let b := Rec.lexBatch (segs'.map (·.name))
       { s with frames := frames', pending := [], wal := s.wal ++ [b], docs := ds, segs := segs', seq := s.seq + 1,
-               dirty := false, tantivyDirty := false, gen := s.gen + 1, stale := staleNow,
+               dirty := false, tantivyDirty := false, lexWritten := true, gen := s.gen + 1, stale := staleNow,
                workDir := if s.tantivyDirty then o.tmp s.kTmp else s.workDir,
                kTmp := if s.tantivyDirty then s.kTmp + 1 else s.kTmp,
                kUuid := s.kUuid + 2, kSched := s.kSched + ds.length }
     else if s.tantivyDirty then
       let b := Rec.lexBatch (s.segs.map (·.name))
-      { s with wal := s.wal ++ [b], seq := s.seq + 1, dirty := false, tantivyDirty := false, gen := s.gen + 1, stale := staleNow }
+      { s with wal := s.wal ++ [b], seq := s.seq + 1, dirty := false, tantivyDirty := false, lexWritten := true, gen := s.gen + 1, stale := staleNow }
     else
       { s with dirty := false, gen := s.gen + 1, stale := staleNow }
+
+/-- `Drop for Memvid`: commits only when `dirty` -/
+def dropCommit (o : Oracles) (s : St) : St := if s.dirty then commit o s else s
 
 /-- cards the extractor builds: one clock read per card -/
 def autoCards (o : Oracles) (k : Nat) (source : Nat) : List (Nat × Nat) → List Card
@@ -357,9 +363,9 @@ def step (E : Engine) (o : Oracles) (s : St) : Op → St × Res
        .ok s.cards.length)
   | .commit => (commit o s, .done)
   | .reopen =>
-      let s1 := commit o s
-      -- open: the embedded segments are materialised in a new temporary directory
-      (if s1.lex then { s1 with workDir := o.tmp s1.kTmp, kTmp := s1.kTmp + 1 } else s1, .done)
+      let s1 := dropCommit o s
+      -- open: the embedded segments are materialised in a new temporary directory; the engine matches the file
+      (if s1.lex then { s1 with tantivyDirty := false, workDir := o.tmp s1.kTmp, kTmp := s1.kTmp + 1 } else s1, .done)
   | .search q => (s, .hits (E s.segs q))
 
 def runFrom (E : Engine) (o : Oracles) (s : St) : List Op → St × List Res
@@ -373,7 +379,7 @@ def runFrom (E : Engine) (o : Oracles) (s : St) : List Op → St × List Res
 def run (E : Engine) (lex : Bool) (o : Oracles) (h : List Op) : St × List Res := runFrom E o (create lex o) h
 
 /-- the state of the file the calls leave: the handle is dropped (`Drop` commits when dirty) -/
-def final (E : Engine) (lex : Bool) (o : Oracles) (h : List Op) : St := commit o (run E lex o h).1
+def final (E : Engine) (lex : Bool) (o : Oracles) (h : List Op) : St := dropCommit o (run E lex o h).1
 
 /-! ## Logical observation -/
 
@@ -468,14 +474,14 @@ def timeRegion (X : Enc) (s : St) : Bytes := if s.frames.isEmpty then [] else X.
 def sketchRegion (X : Enc) (s : St) : Bytes := if s.frames.isEmpty || !s.lex then [] else X.sketch s.frames
 
 def tocRegion (X : Enc) (o : Oracles) (s : St) : Bytes :=
-  X.toc s.frames ((sortSegs s.segs).map (·.name)) (timeRegion X s) (lexRegion X s.lex s.segs) (memoriesRegion X o s) (sketchRegion X s) s.gen s.seq
+  X.toc s.frames ((sortSegs s.segs).map (·.name)) (timeRegion X s) (lexRegion X (s.lex && s.lexWritten) s.segs) (memoriesRegion X o s) (sketchRegion X s) s.gen s.seq
 
 def region (X : Enc) (o : Oracles) (s : St) : Kind → Bytes
   | .header => X.header s.seq s.gen (X.H (tocRegion X o s))
   | .wal => X.walRegion s.wal
   | .payload => payloadRegion s.frames
   | .time => timeRegion X s
-  | .lex => lexRegion X s.lex s.segs
+  | .lex => lexRegion X (s.lex && s.lexWritten) s.segs
   | .memories => memoriesRegion X o s
   | .sketch => sketchRegion X s
   | .toc => tocRegion X o s
@@ -494,7 +500,7 @@ def fileBytes (X : Enc) (E : Engine) (lex : Bool) (o : Oracles) (h : List Op) : 
 
 /-- regions that exist (non-empty) in the file -/
 def present (s : St) : List Kind :=
-  [.header, .wal] ++ (if (payloadRegion s.frames).isEmpty then [] else [.payload]) ++ (if s.frames.isEmpty then [] else [.time]) ++ (if s.lex then [.lex] else [])
+  [.header, .wal] ++ (if (payloadRegion s.frames).isEmpty then [] else [.payload]) ++ (if s.frames.isEmpty then [] else [.time]) ++ (if s.lex && s.lexWritten then [.lex] else [])
   ++ (if s.cards.isEmpty then [] else [.memories]) ++ (if s.frames.isEmpty || !s.lex then [] else [.sketch]) ++ [.toc, .footer]
 
 /-! ## Which regions may depend on an oracle -/
